@@ -158,7 +158,7 @@ Qed.
 
 (** FASTA: for every state ([ex = false]) and, for states in which a pending
     incomplete search sits in a full buffer ([FullInc]; see
-    [fa_FullInc_preserved]), with exact adoption of the policy's answer *)
+    [fa_invariants_preserved] in GrowSitesP.v), with exact adoption of the policy's answer *)
 Theorem fa_next_policy_directed ex fuel ffuel r r' o : fa_next fuel ffuel r = (r', o) ->
   (ex = true -> FullInc r) ->
   PolicyDirected ex (cap r) (polf r) (polh r) (new_events (log r') (log r)) (cap r') (polf r') (polh r').
@@ -235,8 +235,10 @@ Proof.
   - inversion H; subst. fq_simpl. rewrite new_events_cons. auto.
   - match type of H with (let '(r1, fr) := fq_fill ffuel ?R in _) = _ => set (r0 := R) in * end.
     destruct (fq_fill ffuel r0) as [r1 fr] eqn:E1.
-    assert (r1 = r') by (destruct fr; inversion H; reflexivity). subst r1.
     destruct (fq_fill_reads _ _ _ _ E1) as (added & L & Hr & Hc & Hf & Hh).
+    assert (Hsame : qcap r' = qcap r1 /\ qpolf r' = qpolf r1 /\ qpolh r' = qpolh r1 /\ qlog r' = qlog r1)
+      by (destruct fr; inversion H; subst; fq_simpl; auto).
+    destruct Hsame as (Hc' & Hf' & Hh' & Hl'). rewrite Hc', Hf', Hh', Hl'.
     rewrite Hc, Hf, Hh, L. unfold r0. fq_simpl. splits; auto.
     change (added ++ EvSeek byte_ None :: qlog r) with (added ++ [EvSeek byte_ None] ++ qlog r).
     rewrite app_assoc, new_events_app, forallb_app. rewrite (reads_no_grow _ Hr). reflexivity.
